@@ -7,5 +7,6 @@ CONSTRAINT Bound
 INVARIANT TypeOK
 INVARIANT AllRectangular
 INVARIANT ConcatLaw
+INVARIANT DoLaw
 PROPERTY OnlyTargetChanges
 PROPERTY RejectedLeavesState
